@@ -208,6 +208,10 @@ type c20BundleCase struct {
 	Res   []string `json:"res"`
 	Kinds []string `json:"kinds,omitempty"` // per entry: collection post put delete empty ("" = collection)
 	Type  string   `json:"type,omitempty"`  // collection transaction batch
+	// per entry, the other members of Bundle.entry that are filled in (bit set):
+	// 1 fullUrl, 2 response (status, location, etag), 4 response.outcome (an OperationOutcome or a
+	// copy of a generated resource), 8 search, 16 link
+	Decor []int `json:"decor,omitempty"`
 }
 
 func c20GenBundle(s Src) c20BundleCase {
@@ -216,8 +220,51 @@ func c20GenBundle(s Src) c20BundleCase {
 		c.Res = append(c.Res, resToText(genAnyResource(s, smallGen)))
 		// entries without a resource (a DELETE request, an empty entry) keep their position
 		c.Kinds = append(c.Kinds, pickOne(s, []string{"collection", "collection", "post", "put", "delete", "empty"}))
+		d := 0
+		if s.Prob(50) {
+			d = s.Intn(32)
+		}
+		c.Decor = append(c.Decor, d)
 	}
 	return c
+}
+
+func c20AnyDecor(d []int) bool {
+	for _, x := range d {
+		if x != 0 {
+			return true
+		}
+	}
+	return false
+}
+
+// c20DecorateEntry fills in members of the entry other than `resource`; none of them is the
+// entry's resource, so unwrapping must not be affected.
+func c20DecorateEntry(e *bcrpb.Bundle_Entry, d int, r fhir.Resource, i int) {
+	if d&1 != 0 {
+		e.FullUrl = &dtpb.Uri{Value: fmt.Sprintf("urn:uuid:00000000-0000-0000-0000-%012d", i)}
+	}
+	if d&6 != 0 {
+		if e.Response == nil {
+			e.Response = &bcrpb.Bundle_Entry_Response{}
+		}
+		e.Response.Status = &dtpb.String{Value: "200 OK"}
+		e.Response.Location = &dtpb.Uri{Value: fmt.Sprintf("Patient/p%d/_history/1", i)}
+		e.Response.Etag = &dtpb.String{Value: "W/\"1\""}
+	}
+	if d&4 != 0 {
+		var oc fhir.Resource = newResource("OperationOutcome").(fhir.Resource)
+		if i%2 == 1 {
+			oc = proto.Clone(r).(fhir.Resource)
+		}
+		e.Response.Outcome = containedresource.Wrap(oc)
+	}
+	if d&8 != 0 {
+		e.Search = &bcrpb.Bundle_Entry_Search{Score: &dtpb.Decimal{Value: "0.5"}}
+	}
+	if d&16 != 0 {
+		e.Link = append(e.Link, &bcrpb.Bundle_Link{Relation: &dtpb.String{Value: "self"}, Url: &dtpb.Uri{Value: "http://example.org/fhir"}})
+	}
 }
 
 func c20RunBundle(ctx *Ctx, c c20BundleCase) {
@@ -236,7 +283,7 @@ func c20RunBundle(ctx *Ctx, c c20BundleCase) {
 			without++
 		}
 	}
-	ctx.Eval(fmt.Sprint(c.Type, c.Kinds, c.Res), len(c.Res) >= 2, "stage:bundles", fmt.Sprintf("entries-without-resource:%v", without > 0))
+	ctx.Eval(fmt.Sprint(c.Type, c.Kinds, c.Decor, c.Res), len(c.Res) >= 2, "stage:bundles", fmt.Sprintf("entries-without-resource:%v", without > 0), fmt.Sprintf("entries-with-other-members:%v", c20AnyDecor(c.Decor)))
 	isNil := func(r fhir.Resource) bool {
 		return r == nil || reflect.ValueOf(r).IsNil()
 	}
@@ -259,6 +306,9 @@ func c20RunBundle(ctx *Ctx, c c20BundleCase) {
 				entries = append(entries, &bcrpb.Bundle_Entry{})
 			default:
 				entries, want[i] = append(entries, bundle.NewCollectionEntry(r)), r
+			}
+			if i < len(c.Decor) {
+				c20DecorateEntry(entries[len(entries)-1], c.Decor[i], r, i)
 			}
 		}
 		var b *bcrpb.Bundle
@@ -481,7 +531,7 @@ func c20GenExtract(s Src) c20ExtractCase {
 	if s.Prob(40) {
 		o.Budget, o.P0 = 200, 35
 	}
-	return c20ExtractCase{Res: resToText(genAnyResource(s, o)), T: pickOne(s, []string{"Reference", "Identifier", "Coding", "Extension", "String", "DateTime"})}
+	return c20ExtractCase{Res: resToText(genAnyResource(s, o)), T: pickOne(s, c20ExtractNames)}
 }
 
 // collectOfType: an independent walk (descriptor Range; Any-packed contained resources are entered).
@@ -527,61 +577,9 @@ type withPath struct {
 	path string
 }
 
-func c20Extract(res fhir.Resource, t string) (plain []proto.Message, labelled []withPath, err1, err2 error) {
-	switch t {
-	case "Reference":
-		a, e1 := element.ExtractAll[*dtpb.Reference](res)
-		b, e2 := element.ExtractAllWithPath[*dtpb.Reference](res)
-		for _, x := range a {
-			plain = append(plain, x)
-		}
-		for _, x := range b {
-			labelled = append(labelled, withPath{x.Element, x.FHIRPath})
-		}
-		return plain, labelled, e1, e2
-	case "Identifier":
-		a, e1 := element.ExtractAll[*dtpb.Identifier](res)
-		b, e2 := element.ExtractAllWithPath[*dtpb.Identifier](res)
-		for _, x := range a {
-			plain = append(plain, x)
-		}
-		for _, x := range b {
-			labelled = append(labelled, withPath{x.Element, x.FHIRPath})
-		}
-		return plain, labelled, e1, e2
-	case "Coding":
-		a, e1 := element.ExtractAll[*dtpb.Coding](res)
-		b, e2 := element.ExtractAllWithPath[*dtpb.Coding](res)
-		for _, x := range a {
-			plain = append(plain, x)
-		}
-		for _, x := range b {
-			labelled = append(labelled, withPath{x.Element, x.FHIRPath})
-		}
-		return plain, labelled, e1, e2
-	case "Extension":
-		a, e1 := element.ExtractAll[*dtpb.Extension](res)
-		b, e2 := element.ExtractAllWithPath[*dtpb.Extension](res)
-		for _, x := range a {
-			plain = append(plain, x)
-		}
-		for _, x := range b {
-			labelled = append(labelled, withPath{x.Element, x.FHIRPath})
-		}
-		return plain, labelled, e1, e2
-	case "String":
-		a, e1 := element.ExtractAll[*dtpb.String](res)
-		b, e2 := element.ExtractAllWithPath[*dtpb.String](res)
-		for _, x := range a {
-			plain = append(plain, x)
-		}
-		for _, x := range b {
-			labelled = append(labelled, withPath{x.Element, x.FHIRPath})
-		}
-		return plain, labelled, e1, e2
-	}
-	a, e1 := element.ExtractAll[*dtpb.DateTime](res)
-	b, e2 := element.ExtractAllWithPath[*dtpb.DateTime](res)
+func c20ExtractT[T proto.Message](res fhir.Resource) (plain []proto.Message, labelled []withPath, err1, err2 error) {
+	a, e1 := element.ExtractAll[T](res)
+	b, e2 := element.ExtractAllWithPath[T](res)
 	for _, x := range a {
 		plain = append(plain, x)
 	}
@@ -589,6 +587,50 @@ func c20Extract(res fhir.Resource, t string) (plain []proto.Message, labelled []
 		labelled = append(labelled, withPath{x.Element, x.FHIRPath})
 	}
 	return plain, labelled, e1, e2
+}
+
+// c20Extractors: the element types extraction is asked for — the six of the statement's
+// quantifier first, then primitives whose zero value is a legitimate element (false, 0, "")
+// and further complex types
+var c20Extractors = map[string]func(fhir.Resource) ([]proto.Message, []withPath, error, error){
+	"Reference":       c20ExtractT[*dtpb.Reference],
+	"Identifier":      c20ExtractT[*dtpb.Identifier],
+	"Coding":          c20ExtractT[*dtpb.Coding],
+	"Extension":       c20ExtractT[*dtpb.Extension],
+	"String":          c20ExtractT[*dtpb.String],
+	"DateTime":        c20ExtractT[*dtpb.DateTime],
+	"Boolean":         c20ExtractT[*dtpb.Boolean],
+	"Integer":         c20ExtractT[*dtpb.Integer],
+	"UnsignedInt":     c20ExtractT[*dtpb.UnsignedInt],
+	"PositiveInt":     c20ExtractT[*dtpb.PositiveInt],
+	"Decimal":         c20ExtractT[*dtpb.Decimal],
+	"Uri":             c20ExtractT[*dtpb.Uri],
+	"Code":            c20ExtractT[*dtpb.Code],
+	"Date":            c20ExtractT[*dtpb.Date],
+	"Instant":         c20ExtractT[*dtpb.Instant],
+	"Period":          c20ExtractT[*dtpb.Period],
+	"CodeableConcept": c20ExtractT[*dtpb.CodeableConcept],
+	"Quantity":        c20ExtractT[*dtpb.Quantity],
+	"HumanName":       c20ExtractT[*dtpb.HumanName],
+	"Meta":            c20ExtractT[*dtpb.Meta],
+	"Id":              c20ExtractT[*dtpb.Id],
+}
+
+var c20ExtractNames = func() []string {
+	var out []string
+	for n := range c20Extractors {
+		out = append(out, n)
+	}
+	sort.Strings(out)
+	// the statement's six types get half of the draws
+	for i := 0; i < 3; i++ {
+		out = append(out, "Reference", "Identifier", "Coding", "Extension", "String", "DateTime")
+	}
+	return out
+}()
+
+func c20Extract(res fhir.Resource, t string) (plain []proto.Message, labelled []withPath, err1, err2 error) {
+	return c20Extractors[t](res)
 }
 
 // jsonPathOf renders the location of a tree node the way the JSON tree spells it
@@ -723,7 +765,7 @@ func c20RunExtract(ctx *Ctx, c c20ExtractCase) {
 
 func TestC20(t *testing.T) {
 	r := newRec("C20",
-		"exhaustive stages: every resource type of the ContainedResource oneof (146, cross-checked against the repository's registry in both directions): NewFromString / TypeOf / Type.New / Wrap→Unwrap identity and oneof member / New{Collection,Post,Put}Entry→UnwrapEntry identity; every member of Extension.value[x] (from the descriptor): FromElement→Unwrap identity, url kept, right member; ten types outside the oneof must be rejected with ErrInvalidValueX.  generated stages: bundles of 0..5 mixed resources (Unwrap order and identity); extension lists of 0..6 over three URLs on Patient/Observation/HumanName/String × {Upsert, SetByURL, AppendInto, Overwrite, Clear} against a list model (others keep identity and relative order); ExtractAll / ExtractAllWithPath for T ∈ {Reference, Identifier, Coding, Extension, String, DateTime} on generated resources against an independent descriptor walk (every element exactly once), the label against the element's path in the google/fhir JSON tree and, without choice steps, against FHIRPath evaluation.  non-trivial = every type is distinct (exhaustive), ≥ 2 extensions with the target URL and ≥ 1 other (mutators), ≥ 2 elements of the type (extraction), ≥ 2 entries (bundles); distinct = FNV-64 of the case",
+		"exhaustive stages: every resource type of the ContainedResource oneof (146, cross-checked against the repository's registry in both directions): NewFromString / TypeOf / Type.New / Wrap→Unwrap identity and oneof member / New{Collection,Post,Put}Entry→UnwrapEntry identity; every member of Extension.value[x] (from the descriptor): FromElement→Unwrap identity, url kept, right member; ten types outside the oneof must be rejected with ErrInvalidValueX.  generated stages: bundles of 0..5 mixed resources, entries with and without a resource and with the other members of Bundle.entry (fullUrl, response incl. outcome, search, link) filled in (Unwrap order and identity); extension lists of 0..6 over three URLs on Patient/Observation/HumanName/String × {Upsert, SetByURL, AppendInto, Overwrite, Clear} against a list model (others keep identity and relative order); ExtractAll / ExtractAllWithPath for T ∈ {Reference, Identifier, Coding, Extension, String, DateTime} (half of the cases) and 15 further primitive and complex types whose zero value is a legitimate element (Boolean false, Integer 0 …) on generated resources against an independent descriptor walk (every element exactly once), the label against the element's path in the google/fhir JSON tree and, without choice steps, against FHIRPath evaluation.  non-trivial = every type is distinct (exhaustive), ≥ 2 extensions with the target URL and ≥ 1 other (mutators), ≥ 2 elements of the type (extraction), ≥ 2 entries (bundles); distinct = FNV-64 of the case",
 		"resources that embed ContainedResource (Bundle, Parameters, contained) are used for ExtractAll only; ExtractAllWithPath must refuse them with ErrFhirPathNotImplemented")
 	runProperty(t, r,
 		Stage[c20TypeCase]{Name: "resource-types", Enum: c20EnumTypes, Run: c20RunType},
